@@ -158,6 +158,13 @@ def run_shard(sh):
         desc, value = thunk()
         rng = V.rng_for('c03cfg', sh.seed, idx)
         cfgs = config_set(rng, value, 8 if quick else 30)
+        if idx % 3 == 0:
+            # the other settings are held fixed while the layout settings vary: the text under depth / max_seq_len / sort_dict_keys must be
+            # layout-independent as well
+            fixed = rng.choice([{'depth': 1}, {'depth': 2}, {'depth': 3}, {'max_seq_len': 1}, {'max_seq_len': 3}, {'sort_dict_keys': True}, {'depth': 2, 'max_seq_len': 2}])
+            cfgs = [dict(c, **fixed) for c in cfgs]
+            desc = dict(desc, fixed=fixed)
+            sh.counters['values printed under a fixed depth / max_seq_len / sort_dict_keys'] += 1
         n = check_value(sh, value, desc, cfgs)
         sh.case((kind, repr(desc)), nontrivial=bool(n and n > 1))
         sh.counters['values from generator ' + kind] += 1
